@@ -14,7 +14,12 @@ package rules
 //	    reflectvaluecompare pass, run in-process)                     — FINDING F20 today
 //	R2  the effects of the status strategy, the main strategy and create
 //	R3  UpstreamCluster is registered with the sub-status strategy and SubStatus=true, the
-//	    status route of NewResourceREST uses the status strategy
+//	    status route of NewResourceREST uses the status strategy. The option builder of the
+//	    kind is identified by the Kind of the gvkr whose storage options it reads; when one
+//	    builder is shared between kinds (kind, strategy, flag as parameters; a function or a
+//	    function literal) the facts are decided in the calling context that passes
+//	    "UpstreamCluster" (eng.CallCtx): parameters are resolved to that call's arguments and
+//	    boolean parameters become path facts.
 
 import (
 	"fmt"
@@ -866,6 +871,125 @@ func c20StrategyCtor(c *eng.Ctx, v ssa.Value) (*ssa.Call, *types.Named, string) 
 	return call, named, ""
 }
 
+// c20KindVals evaluates the Kind field of the GroupVersionKindResource value v of context ctx:
+// the string constants it may hold and the values that could not be resolved to a constant.
+// The struct is followed through locals (field stores and whole-struct stores), through
+// same-repository constructor helpers (`gvkr := proxyGVKR("UpstreamCluster", …)`) and through
+// parameters bound by the context's call sites.
+func c20KindVals(v ssa.Value, ctx *eng.CallCtx, depth int) (consts []string, unresolved []ssa.Value) {
+	cv := eng.ResolveIn(v, ctx)
+	v, ctx = cv.V, cv.Ctx
+	if depth <= 0 {
+		return nil, []ssa.Value{v}
+	}
+	merge := func(cs []string, us []ssa.Value) {
+		consts = append(consts, cs...)
+		unresolved = append(unresolved, us...)
+	}
+	switch x := v.(type) {
+	case *ssa.UnOp:
+		al, ok := x.X.(*ssa.Alloc)
+		if x.Op != token.MUL || !ok {
+			break
+		}
+		found := false
+		for _, ref := range *al.Referrers() {
+			switch u := ref.(type) {
+			case *ssa.Store:
+				if u.Addr == ssa.Value(al) {
+					if _, isConst := u.Val.(*ssa.Const); !isConst {
+						found = true
+						merge(c20KindVals(u.Val, ctx, depth-1))
+					}
+				}
+			case *ssa.FieldAddr:
+				if !eng.FieldAddrOf(u, c20GVKR, "Kind") {
+					continue
+				}
+				for _, rr := range *u.Referrers() {
+					if st, isSt := rr.(*ssa.Store); isSt && st.Addr == ssa.Value(u) {
+						found = true
+						kv := eng.ResolveIn(st.Val, ctx)
+						if s, isStr := eng.StringConst(kv.V); isStr {
+							consts = append(consts, s)
+						} else {
+							unresolved = append(unresolved, kv.V)
+						}
+					}
+				}
+			}
+		}
+		if found {
+			return
+		}
+	case *ssa.Call, *ssa.Extract:
+		call, idx := eng.CallResultOf(v)
+		if call == nil {
+			break
+		}
+		h := call.Call.StaticCallee()
+		if h == nil || !eng.Analysable(h) {
+			break
+		}
+		if idx < 0 {
+			idx = 0
+		}
+		child := ctx.Child(call, h)
+		n := 0
+		eng.Instrs(h, func(ins ssa.Instruction) {
+			if r, ok := ins.(*ssa.Return); ok && idx < len(r.Results) && r.Block() != h.Recover {
+				n++
+				merge(c20KindVals(r.Results[idx], child, depth-1))
+			}
+		})
+		if n > 0 {
+			return
+		}
+	}
+	return nil, []ssa.Value{v}
+}
+
+// c20KindCtxs returns the contexts (ctx itself, or ctx with its root entered through one of the
+// root function's call sites, recursively) in which the Kind of gvkr is exactly kindName.
+func c20KindCtxs(c *eng.Ctx, ctx *eng.CallCtx, gvkr ssa.Value, kindName string, depth int) []*eng.CallCtx {
+	consts, unresolved := c20KindVals(gvkr, ctx, 4)
+	if len(unresolved) == 0 {
+		for _, s := range consts {
+			if s != kindName {
+				return nil
+			}
+		}
+		if len(consts) == 0 {
+			return nil
+		}
+		return []*eng.CallCtx{ctx}
+	}
+	root := ctx.Root()
+	for _, u := range unresolved {
+		if p, ok := u.(*ssa.Parameter); !ok || p.Parent() != root.Fn {
+			return nil
+		}
+	}
+	if depth <= 0 {
+		return nil
+	}
+	var out []*eng.CallCtx
+	for _, site := range c.W.StaticCallSites(root.Fn) {
+		out = append(out, c20KindCtxs(c, ctx.ExtendRoot(site), gvkr, kindName, depth-1)...)
+	}
+	return out
+}
+
+// c20InCtx is a call together with the context it executes in; level is the index of the
+// builder level it belongs to and via the instruction of that level's function by which it
+// executes (the call itself, or the call of the helper containing it).
+type c20InCtx struct {
+	call  *ssa.Call
+	ctx   *eng.CallCtx
+	level int
+	via   *ssa.Call
+}
+
 func c20R3(c *eng.Ctx) *c20Reg {
 	reg := &c20Reg{}
 	kind := c.W.Named(pkgV1alpha1, "UpstreamCluster")
@@ -874,42 +998,75 @@ func c20R3(c *eng.Ctx) *c20Reg {
 		return reg
 	}
 	kindName := kind.Obj().Name()
+	setName := "(*" + c20Factory + ").SetRESTStrategy"
+	getName := "(*" + c20Factory + ").GetRESTStorageOptions"
 
-	// ---- the option builder of the kind: the function that writes Kind: "UpstreamCluster"
-	var builders []*ssa.Function
+	// ---- the option builder of the kind: the function that reads the storage options of a
+	// GroupVersionKindResource whose Kind is "UpstreamCluster" — as a constant of the function
+	// or, for a builder shared between kinds, as entered through the call site that passes that
+	// constant (a calling context; everything below is decided in that context)
+	type builder struct {
+		ctx *eng.CallCtx
+		get *ssa.Call
+	}
+	var builders []builder
 	for _, fn := range c.W.FuncsOf(pkgProxyREST) {
-		hit := false
-		eng.Instrs(fn, func(ins ssa.Instruction) {
-			if st, ok := ins.(*ssa.Store); ok && eng.FieldAddrOf(st.Addr, c20GVKR, "Kind") {
-				if s, ok := eng.StringConst(st.Val); ok && s == kindName {
-					hit = true
-				}
+		for _, ci := range eng.CallsTo(fn, getName) {
+			g, ok := ci.(*ssa.Call)
+			if !ok || len(eng.Args(g)) != 1 {
+				continue
 			}
-		})
-		if hit {
-			builders = append(builders, fn)
+			for _, ctx := range c20KindCtxs(c, &eng.CallCtx{Fn: fn}, eng.Args(g)[0], kindName, eng.LiftDepth) {
+				builders = append(builders, builder{ctx, g})
+			}
 		}
 	}
 	if len(builders) != 1 {
-		c.Fail("R3", nil, "option builder for kind "+kindName, 0, fmt.Sprintf("%d functions of the proxy REST package build a GroupVersionKindResource with Kind %q (exactly one expected)", len(builders), kindName))
+		c.Fail("R3", nil, "option builder for kind "+kindName, 0, fmt.Sprintf("%d functions (or calling contexts of a shared builder) of the proxy REST package read the storage options of a GroupVersionKindResource with Kind %q (exactly one expected)", len(builders), kindName))
 		return reg
 	}
-	ub := builders[0]
+	bctx, get := builders[0].ctx, builders[0].get
+	levels := bctx.Levels() // levels[0]: the function calling GetRESTStorageOptions … last: the root
+	ub := bctx.Root().Fn    // obligations are reported against the outermost function of the context
+	getRecv := eng.ResolveIn(eng.Receiver(get), bctx)
+	getGVKR := eng.ResolveIn(eng.Args(get)[0], bctx)
 
-	// strategy given to the factory
-	setName := "(*" + c20Factory + ").SetRESTStrategy"
-	getName := "(*" + c20Factory + ").GetRESTStorageOptions"
-	sets := eng.CallsTo(ub, setName)
-	gets := eng.CallsTo(ub, getName)
+	// ---- strategy given to the factory: the SetRESTStrategy calls on the same factory and gvkr,
+	// in the functions of the context chain or in a same-package helper they call
+	var sets []c20InCtx
+	nOtherSets := 0
+	for li, lc := range levels {
+		for _, ci := range eng.Calls(lc.Fn) {
+			call, ok := ci.(*ssa.Call)
+			if !ok {
+				continue
+			}
+			var cands []c20InCtx
+			if eng.IsCall(call, setName) {
+				cands = append(cands, c20InCtx{call, lc, li, call})
+			} else if h := call.Call.StaticCallee(); h != nil && h.Blocks != nil && h.Pkg != nil && h.Pkg == lc.Fn.Pkg && (li == 0 || call != levels[li-1].Site) {
+				for _, sc := range eng.CallsTo(h, setName) {
+					if s, isCall := sc.(*ssa.Call); isCall {
+						cands = append(cands, c20InCtx{s, lc.Child(call, h), li, call})
+					}
+				}
+			}
+			for _, s := range cands {
+				sa := eng.Args(s.call)
+				if len(sa) == 2 && eng.SameIn(eng.ResolveIn(eng.Receiver(s.call), s.ctx), getRecv) && eng.SameIn(eng.ResolveIn(sa[0], s.ctx), getGVKR) {
+					sets = append(sets, s)
+				} else if li == 0 && s.via == s.call {
+					nOtherSets++ // a registration in the builder itself for another factory / gvkr
+				}
+			}
+		}
+	}
 	if len(sets) == 0 {
-		c.Fail("R3", ub, "SetRESTStrategy(sub-status strategy)", ub.Pos(), "no strategy is registered for the kind: the factory default is used")
+		c.Fail("R3", ub, "SetRESTStrategy(sub-status strategy)", ub.Pos(), "no strategy is registered for the kind (same factory, same gvkr as the options read): the factory default is used")
 	}
 	for _, s := range sets {
-		a := eng.Args(s)
-		if len(a) != 2 {
-			continue
-		}
-		ctor, named, why := c20StrategyCtor(c, a[1])
+		a := eng.Args(s.call)
+		ctor, named, why := c20StrategyCtor(c, eng.ResolveIn(a[1], s.ctx).V)
 		ok := false
 		detail := why
 		if ctor != nil && named != nil {
@@ -934,79 +1091,171 @@ func c20R3(c *eng.Ctx) *c20Reg {
 				c.Pass("R3", k, "constructor stores its subStatus parameter into the subStatus field", k.Pos(), fmt.Sprintf("parameter #%d", idx))
 			}
 		}
-		c.Check("R3", ub, "SetRESTStrategy(sub-status strategy)", s.Pos(), ok, detail)
+		c.Check("R3", ub, "SetRESTStrategy(sub-status strategy)", s.call.Pos(), ok, detail)
 	}
 
 	// Set precedes Get on the same factory and the same gvkr; the options returned are Get's
-	for _, g := range gets {
-		ok := len(sets) > 0
+	{
+		ok := len(sets) > 0 && nOtherSets == 0
 		for _, s := range sets {
-			sa, ga := eng.Args(s), eng.Args(g)
-			same := eng.Receiver(s) == eng.Receiver(g) && len(sa) == 2 && len(ga) == 1 && c20SameValue(sa[0], ga[0])
-			before := eng.AlwaysBefore(ub, g, func(i ssa.Instruction) bool { return i == ssa.Instruction(s) })
-			ok = ok && same && before
+			target := ssa.Instruction(get)
+			if s.level > 0 {
+				target = levels[s.level-1].Site
+			}
+			// (a registration inside a helper counts when the helper performs it on every path:
+			// the lifted AlwaysBefore decides that)
+			reg := ssa.Instruction(s.call)
+			ok = ok && eng.AlwaysBeforeIn(levels[s.level], target, func(i ssa.Instruction) bool { return i == reg })
 		}
-		c.Check("R3", ub, "strategy registered before the options are read, same factory and gvkr", g.Pos(), ok,
+		c.Check("R3", ub, "strategy registered before the options are read, same factory and gvkr", get.Pos(), ok,
 			"GetRESTStorageOptions applies the overrides recorded for its gvkr; the strategy must have been recorded for that very gvkr before")
 	}
-	if len(gets) == 0 {
-		c.Fail("R3", ub, "strategy registered before the options are read, same factory and gvkr", ub.Pos(), "no GetRESTStorageOptions call")
-	}
 
-	// SubStatus = true on every successful return
-	nret := 0
-	eng.Instrs(ub, func(ins ssa.Instruction) {
-		r, ok := ins.(*ssa.Return)
-		if !ok || len(r.Results) != 2 || !eng.IsNilConst(r.Results[1]) {
-			return
+	// ---- the options travel from GetRESTStorageOptions up the context chain to the provider;
+	// SubStatus = true is set on the way, on every successful return
+	provName := pkgRegistry + ".NewRESTStorageProvider"
+	provIn := map[*ssa.Function]bool{}
+	for _, fn := range c.W.FuncsOf(pkgProxyREST) {
+		if len(eng.CallsTo(fn, provName)) > 0 {
+			provIn[fn] = true
 		}
-		nret++
-		good, detail := false, "the returned options are not a local whose SubStatus field is assigned"
-		if ld, ok := r.Results[0].(*ssa.UnOp); ok && ld.Op == token.MUL {
-			if al, ok := ld.X.(*ssa.Alloc); ok {
-				fromGet, trueStores, otherStores := false, 0, 0
-				for _, ref := range *al.Referrers() {
-					switch u := ref.(type) {
-					case *ssa.Store:
-						if call, idx := eng.CallResultOf(u.Val); u.Addr == ssa.Value(al) && call != nil && idx == 0 && eng.IsCall(call, getName) {
-							fromGet = true
+	}
+	sl := &eng.Slicer{W: c.W, Depth: 0}
+	forwards := make([]bool, len(levels)) // level li hands the options it received to its caller on every successful return
+	nret, setsTrue := 0, false
+	var bad []string
+	var retPos token.Pos
+	for li, lc := range levels {
+		if provIn[lc.Fn] {
+			break // this level consumes the options
+		}
+		src := get
+		if li > 0 {
+			src = levels[li-1].Site
+		}
+		isSrc := func(v ssa.Value, idx int) bool {
+			call, i := eng.CallResultOf(v)
+			return call == src && i == idx
+		}
+		forwards[li] = true
+		n := 0
+		eng.Instrs(lc.Fn, func(ins ssa.Instruction) {
+			r, ok := ins.(*ssa.Return)
+			if !ok || len(r.Results) != 2 || r.Block() == lc.Fn.Recover {
+				return
+			}
+			// a return that may report success: nil error, or the source call's own error unless known non-nil
+			errv := r.Results[1]
+			var success eng.BoolFacts // what holds in addition when this return reports success
+			switch {
+			case eng.IsNilConst(errv):
+			case isSrc(errv, 1) && !eng.GuardedByNil(r, func(v ssa.Value) bool { return v == errv }, false):
+				success = eng.NilFacts(lc.Fn, errv, true)
+			default:
+				return
+			}
+			n++
+			if li == 0 {
+				nret++
+				if retPos == token.NoPos {
+					retPos = r.Pos()
+				}
+			}
+			rv := r.Results[0]
+			if isSrc(rv, 0) {
+				return // handed on as received
+			}
+			ld, isLd := rv.(*ssa.UnOp)
+			var al *ssa.Alloc
+			if isLd && ld.Op == token.MUL {
+				al, _ = ld.X.(*ssa.Alloc)
+			}
+			if al == nil {
+				forwards[li] = false
+				bad = append(bad, "the returned options are not a local whose SubStatus field is assigned")
+				return
+			}
+			fromSrc := false
+			for _, ref := range *al.Referrers() {
+				switch u := ref.(type) {
+				case *ssa.Store:
+					if u.Addr == ssa.Value(al) {
+						if isSrc(u.Val, 0) {
+							fromSrc = true
+						} else if eng.ReachableIn(lc, u) {
+							forwards[li] = false
+							bad = append(bad, "the returned options are overwritten by something other than the options read from the factory")
 						}
-					case *ssa.FieldAddr:
-						if !eng.FieldAddrOf(u, c20Options, "SubStatus") {
+					}
+				case *ssa.FieldAddr:
+					if !eng.FieldAddrOf(u, c20Options, "SubStatus") {
+						continue
+					}
+					for _, rr := range *u.Referrers() {
+						st, isSt := rr.(*ssa.Store)
+						if !isSt || st.Addr != ssa.Value(u) || !eng.ReachableIn(lc, st) {
 							continue
 						}
-						for _, rr := range *u.Referrers() {
-							if st, ok := rr.(*ssa.Store); ok && st.Addr == ssa.Value(u) {
-								if eng.IsBoolConst(st.Val, true) && eng.AlwaysBefore(ub, r, func(i ssa.Instruction) bool { return i == ssa.Instruction(st) }) {
-									trueStores++
-								} else {
-									otherStores++
-								}
-							}
+						if eng.IsBoolConst(eng.ResolveIn(st.Val, lc).V, true) && eng.AlwaysBeforeIn(lc, r, func(i ssa.Instruction) bool { return i == ssa.Instruction(st) }, success) {
+							setsTrue = true
+						} else {
+							bad = append(bad, "SubStatus is assigned something other than true, or true on some paths only")
 						}
 					}
 				}
-				good = fromGet && trueStores > 0 && otherStores == 0
-				detail = "options come from GetRESTStorageOptions and SubStatus is set to true on every path to the successful return (otherwise no status route is installed and the main route is the only writer of status)"
 			}
+			if !fromSrc {
+				forwards[li] = false
+				bad = append(bad, "the returned options do not come from GetRESTStorageOptions")
+			}
+		})
+		if n == 0 {
+			forwards[li] = false
 		}
-		c.Check("R3", ub, "options.SubStatus = true", r.Pos(), good, detail)
-	})
+	}
 	if nret == 0 {
 		c.Fail("R3", ub, "options.SubStatus = true", ub.Pos(), "no successful return found")
+	} else {
+		detail := "options come from GetRESTStorageOptions and SubStatus is set to true on every path to the successful return (otherwise no status route is installed and the main route is the only writer of status)"
+		if len(bad) > 0 {
+			detail = strings.Join(c13Dedup(bad), "; ")
+		} else if !setsTrue {
+			detail = "SubStatus is never set to true on the options handed to the provider: no status route is installed and the main route is the only writer of status"
+		}
+		c.Check("R3", ub, "options.SubStatus = true", retPos, setsTrue && len(bad) == 0, detail)
 	}
 
 	// the options reach the provider
-	provName := pkgRegistry + ".NewRESTStorageProvider"
 	nprov := 0
-	sl := &eng.Slicer{W: c.W, Depth: 0}
 	for _, fn := range c.W.FuncsOf(pkgProxyREST) {
 		for _, ci := range eng.CallsTo(fn, provName) {
 			nprov++
 			a := eng.Args(ci)
 			ok := len(a) == 3 && sl.DerivesFrom(a[2], func(v ssa.Value) bool {
 				call, idx := eng.CallResultOf(v)
-				return call != nil && idx == 0 && call.Call.StaticCallee() == ub
+				if call == nil || idx != 0 {
+					return false
+				}
+				upTo := -1 // the levels that must hand the options on
+				switch {
+				case call.Call.StaticCallee() == ub && !provIn[ub]:
+					upTo = len(levels) - 1
+				default:
+					for li := 1; li < len(levels); li++ {
+						if levels[li].Fn == fn && call == levels[li-1].Site {
+							upTo = li - 1
+						}
+					}
+				}
+				if upTo < 0 {
+					return false
+				}
+				for li := 0; li <= upTo; li++ {
+					if !forwards[li] {
+						return false
+					}
+				}
+				return true
 			})
 			c.Check("R3", fn, "options of "+kindName+" handed to NewRESTStorageProvider", ci.Pos(), ok, "the provider must be built from the options the builder returned")
 		}
@@ -1015,19 +1264,13 @@ func c20R3(c *eng.Ctx) *c20Reg {
 		c.Fail("R3", nil, "options of "+kindName+" handed to NewRESTStorageProvider", 0, "no call to "+provName)
 	}
 
-	c20Factory3(c, sets, gets)
+	var setCalls []ssa.CallInstruction
+	for _, s := range sets {
+		setCalls = append(setCalls, s.call)
+	}
+	c20Factory3(c, setCalls, []ssa.CallInstruction{get})
 	c20ResourceREST(c, reg)
 	return reg
-}
-
-// c20SameValue reports whether a and b are the same SSA value or two loads of the same cell.
-func c20SameValue(a, b ssa.Value) bool {
-	if a == b {
-		return true
-	}
-	la, oka := a.(*ssa.UnOp)
-	lb, okb := b.(*ssa.UnOp)
-	return oka && okb && la.Op == token.MUL && lb.Op == token.MUL && la.X == lb.X
 }
 
 // c20Factory3 checks the three steps that carry the strategy from SetRESTStrategy to the
